@@ -834,3 +834,224 @@ Lemma get_data_no_read f s c n sid u since before limit :
   is_reader (user_mode c u) = false ->
   h_out (get_data f s c n sid u since before limit) = [(sid, Ctrl 204 [(P_what, 1)])].
 Proof. intros R. unfold get_data. rewrite R. reflexivity. Qed.
+
+(* ------------------------------------------------------------------ *)
+(* 5b. the deletion log and {get del}                                   *)
+
+(* every log row is a non-empty range of non-negative ids of a non-negative transaction *)
+Definition row_wf (d : delrow) : Prop := 0 <= d_low d < d_hi d /\ 0 <= d_delid d.
+Definition dellog_wf (s : store) : Prop := Forall row_wf (dellog s) /\ 0 <= t_delid s.
+Definition log_inv (s : store) (c : cache) : Prop := dellog_wf s /\ 0 <= c_delid c.
+
+Lemma dellog_wf_hsame s s' : hsame s s' -> dellog_wf s -> dellog_wf s'.
+Proof. intros [_ [E1 E2]] H. unfold dellog_wf. now rewrite E1, E2. Qed.
+Lemma dellog_wf_unsub u s s' : unsub_rows u s s' -> dellog_wf s -> dellog_wf s'.
+Proof.
+  intros [_ [E2 E]] [H H0]. unfold dellog_wf in *. rewrite E, E2. split; [|exact H0]. apply Forall_forall. intros d Hd.
+  apply filter_In in Hd. rewrite Forall_forall in H. apply H. tauto.
+Qed.
+
+Definition range_wf (r : Z * Z) : Prop := 0 <= fst r /\ (snd r = 0 \/ fst r < snd r).
+
+Lemma dellog_wf_delete_list s d fu rs : 0 <= d -> Forall range_wf rs -> dellog_wf s -> dellog_wf (ad_msg_delete_list s d fu rs).
+Proof.
+  intros Hd HR [H H0]. unfold dellog_wf, ad_msg_delete_list in *.
+  assert (Forall row_wf (dellog s ++ map (fun r => mkDel d fu (fst r) (norm_hi (fst r) (snd r))) rs)) as G.
+  { apply Forall_app. split; [exact H|]. apply Forall_forall. intros x Hx. apply in_map_iff in Hx.
+    destruct Hx as [r [<- Hr]]. rewrite Forall_forall in HR. destruct (HR r Hr) as [A B].
+    unfold row_wf, norm_hi. cbn [d_low d_hi d_delid]. destruct (snd r =? 0) eqn:E; lia. }
+  destruct (fu =? 0)%N; split; assumption.
+Qed.
+
+Section Wf.
+Variable dr : Z -> list (Z * Z) -> option (list (Z * Z)).
+Variable nr : list (Z * Z) -> list (Z * Z).
+Variable sm : sessmap.
+Hypothesis dr_wf : forall last req out, dr last req = Some out -> Forall range_wf out.
+
+Lemma del_msg_wf f s c n sid u req hard : log_inv s c ->
+  log_inv (h_st (del_msg dr f s c n sid u req hard)) (h_ca (del_msg dr f s c n sid u req hard)).
+Proof.
+  intros [H HC]. unfold del_msg.
+  destruct (negb (is_deleter (user_mode c u)) && negb (is_reader (user_mode c u))); [split; assumption|].
+  destruct (dr (c_lastid c) req) as [rs|] eqn:DR; [|split; assumption].
+  pose proof (dellog_wf_delete_list s (c_delid c + 1) (if hard && is_deleter (user_mode c u) then 0%N else u) rs
+                ltac:(lia) (dr_wf _ _ _ DR) H) as W.
+  assert (dellog_wf (st_delid (c_delid c + 1) (ad_msg_delete_list s (c_delid c + 1) (if hard && is_deleter (user_mode c u) then 0%N else u) rs))) as W2.
+  { destruct W as [W _]. split; [exact W|cbn; lia]. }
+  repeat break_match; cbn [h_st h_ca]; split; try exact H; try exact W; try exact W2; try exact HC;
+    try (eapply dellog_wf_hsame; [apply hsame_subs_update|]; exact W2);
+    cbn [c_delid c_set_delid c_set_users]; lia.
+Qed.
+
+(* for every history, with any faults and crashes *)
+Lemma run_dellog_wf h x : dellog_wf (st x) -> match ca x with Some c => 0 <= c_delid c | None => True end ->
+  dellog_wf (st (fst (run dr nr sm x h))).
+Proof.
+  intros H HC.
+  pose proof (run_minv dr nr sm dellog_wf log_inv) as M. unfold minv in M.
+  assert (match ca x with Some c => log_inv (st x) c | None => dellog_wf (st x) end) as H'
+    by (destruct (ca x); [split|]; assumption).
+  assert (forall y, match ca y with Some c => log_inv (st y) c | None => dellog_wf (st y) end -> dellog_wf (st y)) as OUT
+    by (intros y; destruct (ca y); [intros [A _]; exact A|auto]).
+  apply OUT. apply M; try exact H'; clear M H' OUT H HC x h.
+  - intros s H. split; [exact H|]. destruct H as [_ H]. exact H.
+  - intros s c [H _]. exact H.
+  - intros f s c n sid u w b [H HC]. split; [eapply dellog_wf_hsame; [apply sub_reply_h4|exact H]|].
+    now rewrite (hframe_delid _ _ _ (sub_reply_frame f s c n sid u w b)).
+  - intros f s c n sid u [H HC]. pose proof (leave_unsub_cases f s c n sid u) as L. cbn zeta in L.
+    destruct L as [_ [LD [[_ UR]|[code [_ [_ E]]]]]]; (split; [|now rewrite LD]);
+      [eapply dellog_wf_unsub; eassumption|now rewrite E].
+  - intros s c sid u [H HC]. split; [exact H|]. destruct (leave_frame c sid u) as [_ [E _]]. now rewrite E.
+  - intros f s c n sid u ct ne [[H H0] HC]. destruct (publish_h4 f s c n sid u ct ne) as [E1 [E2 [E3 _]]].
+    split; [|now rewrite E3]. unfold dellog_wf. now rewrite E1, E2.
+  - intros f s c n sid u w q [H HC]. split; [eapply dellog_wf_hsame; [apply note_h4|exact H]|].
+    now rewrite (hframe_delid _ _ _ (note_frame f s c n sid u w q)).
+  - intros f s c n sid u r hd H. apply del_msg_wf. exact H.
+  - intros f s c n sid u t m [H HC]. split; [eapply dellog_wf_hsame; [apply set_sub_h4|exact H]|].
+    now rewrite (hframe_delid _ _ _ (set_sub_frame f s c n sid u t m)).
+  - intros f s c n sid u t [H HC]. pose proof (del_sub_cases f s c n sid u t) as L. cbn zeta in L.
+    destruct L as [_ [LD [[_ [_ UR]]|[code [_ [_ E]]]]]]; (split; [|now rewrite LD]);
+      [eapply dellog_wf_unsub; eassumption|now rewrite E].
+  - intros f s sid u t m H. eapply dellog_wf_hsame; [apply offline_set_sub_hsame|exact H].
+  - intros f s c sid u t m [H HC]. split; [|exact HC]. eapply dellog_wf_hsame; [apply offline_set_sub_hsame|exact H].
+Qed.
+End Wf.
+
+Lemma insert_del_perm d l : Permutation (insert_del d l) (d :: l).
+Proof.
+  induction l as [|x l IH]; cbn; [apply Permutation_refl|].
+  destruct (d_delid d <? d_delid x); [apply Permutation_refl|].
+  eapply Permutation_trans; [apply perm_skip; exact IH|apply perm_swap].
+Qed.
+Lemma sort_del_perm l : Permutation (sort_del l) l.
+Proof.
+  unfold sort_del.
+  assert (forall acc, Permutation (fold_left (fun acc d => insert_del d acc) l acc) (l ++ acc)) as G.
+  { induction l as [|x l IH]; intros acc; cbn; [apply Permutation_refl|].
+    eapply Permutation_trans; [apply IH|].
+    eapply Permutation_trans; [apply Permutation_app_head; apply insert_del_perm|].
+    apply Permutation_sym. apply Permutation_middle. }
+  specialize (G []). now rewrite app_nil_r in G.
+Qed.
+Lemma existsb_perm {A} (p : A -> bool) l l' : Permutation l l' -> existsb p l = existsb p l'.
+Proof.
+  induction 1; cbn; try congruence.
+  - destruct (p x), (p y); reflexivity.
+Qed.
+
+(* the rows MessageGetDeleted selects for user u: written for everyone or for u, transaction
+   number in [since, before) (since <= 0: from the first; before <= 1: to the last) *)
+Definition del_sel (u : N) (since before : Z) (d : delrow) : bool :=
+  ((d_for d =? 0)%N || N.eqb (d_for d) u) && ((if 0 <? since then since else 0) <=? d_delid d) &&
+  (if 1 <? before then d_delid d <? before else true).
+
+Lemma get_deleted_filter s u since before limit :
+  ad_msg_get_deleted s u since before limit =
+  firstn (Z.to_nat (eff_limit max_results limit)) (sort_del (filter (del_sel u since before) (dellog s))).
+Proof.
+  unfold ad_msg_get_deleted. f_equal. f_equal. apply filter_ext. intros d. unfold del_sel.
+  destruct ((d_for d =? 0)%N || N.eqb (d_for d) u); cbn [andb]; [|reflexivity].
+  destruct ((if 0 <? since then since else 0) <=? d_delid d); cbn [andb]; [|reflexivity].
+  destruct (1 <? before); [|reflexivity]. replace (d_delid d <=? before - 1) with (d_delid d <? before) by lia. reflexivity.
+Qed.
+
+(* ids named by the selected transactions *)
+Definition logged_sel (s : store) (u : N) (since before : Z) (x : Z) : bool :=
+  existsb (fun d => del_sel u since before d && in_range x (d_low d) (d_hi d)) (dellog s).
+
+(* an unrestricted query selects everything deleted for the user *)
+Lemma logged_sel_open s u since before x : dellog_wf s -> since <= 0 -> before <= 1 ->
+  logged_sel s u since before x = hs_deleted_for (abs s) u x.
+Proof.
+  intros [W _] H1 H2. unfold logged_sel, hs_deleted_for, abs, logged_for. cbn [hs_soft hs_hard].
+  induction (dellog s) as [|d l IH]; cbn; [reflexivity|].
+  inversion W as [|? ? [_ WD] W']; subst. rewrite (IH W'). unfold del_sel.
+  replace (0 <? since) with false by lia. replace (1 <? before) with false by lia.
+  replace (0 <=? d_delid d) with true by lia.
+  destruct (d_for d =? 0)%N eqn:E0, (N.eqb (d_for d) u) eqn:Eu, (in_range x (d_low d) (d_hi d)); cbn;
+    try reflexivity; rewrite ?orb_true_r; try reflexivity;
+    destruct (existsb _ l); try reflexivity; destruct (existsb _ l); reflexivity.
+Qed.
+
+Lemma get_deleted_rows s u since before limit :
+  let rows := ad_msg_get_deleted s u since before limit in
+  let lim := Z.to_nat (eff_limit max_results limit) in
+  (length rows <= lim)%nat /\
+  (forall d, In d rows -> In d (dellog s) /\ del_sel u since before d = true) /\
+  ((length (filter (del_sel u since before) (dellog s)) <= lim)%nat ->
+   forall x, existsb (fun d => in_range x (d_low d) (d_hi d)) rows = logged_sel s u since before x).
+Proof.
+  cbn zeta. rewrite get_deleted_filter. split; [apply firstn_le_length|]. split.
+  - intros d Hd. apply firstn_In in Hd. apply (Permutation_in _ (sort_del_perm _)) in Hd.
+    apply filter_In in Hd. exact Hd.
+  - intros L x. rewrite firstn_all2.
+    + rewrite (existsb_perm _ _ _ (sort_del_perm _)). rewrite existsb_filter. reflexivity.
+    + rewrite (Permutation_length (sort_del_perm _)). exact L.
+Qed.
+
+Lemma fold_max_spec l : forall acc,
+  let r := fold_left (fun a d => Z.max a (d_delid d)) l acc in
+  acc <= r /\ (forall d, In d l -> d_delid d <= r) /\ (r = acc \/ exists d, In d l /\ d_delid d = r).
+Proof.
+  induction l as [|y l IH]; intros acc; cbn [fold_left]; cbn zeta.
+  - split; [lia|]. split; [intros d []|now left].
+  - destruct (IH (Z.max acc (d_delid y))) as [A [B C]]. cbn zeta in *. split; [lia|]. split.
+    + intros d [<-|Hd]; [lia|auto].
+    + destruct C as [C|[d [Hd C]]]; [|right; exists d; split; [now right|exact C]].
+      destruct (Z.max_spec acc (d_delid y)) as [[_ E]|[_ E]]; rewrite E in *.
+      * right. exists y. split; [now left|now symmetry].
+      * now left.
+Qed.
+
+(* a log row as it is reported: MessageGetDeleted turns hi <= low+1 into hi = 0 *)
+Definition row_range (d : delrow) : Z * Z := (d_low d, if d_hi d <=? d_low d + 1 then 0 else d_hi d).
+Lemma row_range_wf d : row_wf d -> range_wf (row_range d).
+Proof. intros [H _]. unfold range_wf, row_range. cbn [fst snd]. destruct (d_hi d <=? d_low d + 1) eqn:E; lia. Qed.
+Lemma row_range_covers d x : row_wf d ->
+  in_range x (fst (row_range d)) (norm_hi (fst (row_range d)) (snd (row_range d))) = in_range x (d_low d) (d_hi d).
+Proof.
+  intros [H _]. unfold row_range, norm_hi, in_range. cbn [fst snd].
+  destruct (d_hi d <=? d_low d + 1) eqn:E; cbn [Z.eqb].
+  - assert (d_hi d = d_low d + 1) as -> by lia. reflexivity.
+  - replace (d_hi d =? 0) with false by lia. reflexivity.
+Qed.
+
+Section GetDel.
+Variable nr : list (Z * Z) -> list (Z * Z).
+(* sort + Normalize cover exactly the ids of their input (layer 1: Ranges.normalize_exact
+   for the instance of TopicInst.v) *)
+Hypothesis nr_exact : forall rs, Forall range_wf rs -> forall x, covers (nr rs) x = covers rs x.
+
+Lemma get_del_exact f s c n sid u since before limit :
+  dellog_wf s -> is_reader (user_mode c u) = true -> fails f (S n) = false ->
+  let rows := ad_msg_get_deleted s u since before limit in
+  let o := h_out (get_del nr f s c n sid u since before limit) in
+  (rows = [] /\ o = [(sid, Ctrl 204 [(P_what, 3)])]) \/
+  (exists maxid rs, o = [(sid, MetaDel maxid rs)] /\
+     (forall d, In d rows -> d_delid d <= maxid) /\ (exists d, In d rows /\ d_delid d = maxid) /\
+     (forall x, covers rs x = existsb (fun d => in_range x (d_low d) (d_hi d)) rows)).
+Proof.
+  intros [W _] R F. cbn zeta. unfold get_del, call. rewrite R, F. cbn [negb].
+  destruct (get_deleted_rows s u since before limit) as [_ [RW _]]. cbn zeta in RW.
+  destruct (ad_msg_get_deleted s u since before limit) as [|d0 rows] eqn:E; [left; split; reflexivity|right].
+  set (l := d0 :: rows) in *.
+  assert (Forall row_wf l) as WL.
+  { apply Forall_forall. intros d Hd. rewrite Forall_forall in W. apply W. apply RW. exact Hd. }
+  eexists. eexists. split; [reflexivity|].
+  destruct (fold_max_spec l 0) as [A [B C]]. cbn zeta in *. split; [exact B|]. split.
+  - destruct C as [C|C]; [|exact C]. exists d0. split; [now left|].
+    specialize (B d0 (or_introl eq_refl)). rewrite Forall_forall in WL. destruct (WL d0 (or_introl eq_refl)) as [_ G].
+    fold l. lia.
+  - intros x. rewrite nr_exact.
+    + unfold covers. rewrite existsb_map. apply existsb_ext_in. intros d Hd. fold (row_range d).
+      apply row_range_covers. rewrite Forall_forall in WL. apply WL. exact Hd.
+    + apply Forall_forall. intros r Hr. apply in_map_iff in Hr. destruct Hr as [d [<- Hd]]. fold (row_range d).
+      apply row_range_wf. rewrite Forall_forall in WL. apply WL. exact Hd.
+Qed.
+
+Lemma get_del_no_read f s c n sid u since before limit :
+  is_reader (user_mode c u) = false ->
+  h_out (get_del nr f s c n sid u since before limit) = [(sid, Ctrl 204 [(P_what, 3)])].
+Proof. intros R. unfold get_del. rewrite R. reflexivity. Qed.
+End GetDel.
